@@ -207,8 +207,9 @@ func runGroup(spec Spec) Result {
 	rc.arm()
 	rc.startSettle(settle)
 	closeReturned := make(chan struct{})
+	hookReleased := make(chan struct{})
+	var held int32
 	if spec.Scen == "race" {
-		var held int32
 		sarama.VerifSetObserver(func(kind string, args ...interface{}) {
 			if kind != "cg.handleError.checked" || !atomic.CompareAndSwapInt32(&held, 0, 1) {
 				return
@@ -221,6 +222,7 @@ func runGroup(spec Spec) Result {
 			case <-time.After(1500 * time.Millisecond):
 				rc.note("hook: Close did not return while the caller was held (it waits for it)")
 			}
+			close(hookReleased)
 		})
 		defer sarama.VerifSetObserver(nil)
 	}
@@ -337,6 +339,14 @@ func runGroup(spec Spec) Result {
 		} else if cerr != nil {
 			rc.fail("close-error:client", fmt.Sprintf("shared Client.Close returned %v", cerr))
 		}
+	}
+	if atomic.LoadInt32(&held) == 1 {
+		// the held caller continues right after the release: if it panics, the process dies inside this run
+		select {
+		case <-hookReleased:
+		case <-time.After(3 * time.Second):
+		}
+		time.Sleep(80 * time.Millisecond)
 	}
 	res.Comps = append(res.Comps, CompObs{Comp: "group", Cfg: []int64{}, Obs: obs, Complete: !hung})
 	res.finish(rc)
